@@ -76,12 +76,24 @@ func (P *Prog) isNoReturnCall(in ssa.Instruction) bool {
 	return false
 }
 
-// PathQ describes a reachability question inside one function.
+// PathQ describes a reachability question inside one function, or — with Into — inside a function and the helpers it
+// calls (region.go): a plain static call of a function in Into is followed into the callee's body and back to the
+// instruction after the call, with a call stack, so paths are the real interprocedural paths of the region.
 type PathQ struct {
 	P           *Prog
 	Barrier     func(ssa.Instruction) bool                   // a path may not pass this instruction
 	EdgeBlocked func(from *ssa.BasicBlock, succIdx int) bool // a path may not take this edge
 	PassNoRet   bool                                         // if false (default) panicking/exiting calls end a path
+	Into        map[*ssa.Function]bool                       // helpers whose bodies are part of the paths
+	Root        *ssa.Function                                // with Into: the function whose returns end a path
+}
+
+// frame: where a path continues when a helper returns. R >= 0: inside the RunDefers at B.Instrs[I], at deferred call #R.
+type pqFrame struct {
+	B    *ssa.BasicBlock
+	I    int
+	R    int
+	Defs []*ssa.Defer // the caller's registered deferred helper calls
 }
 
 // Reach: is there a path from start (inclusive) to an instruction satisfying
@@ -90,37 +102,159 @@ type PathQ struct {
 func (q *PathQ) Reach(start Point, target func(ssa.Instruction) bool) (ssa.Instruction, []*ssa.BasicBlock) {
 	type item struct {
 		p     Point
+		r     int // >= 0: resume the RunDefers at p with deferred call #r
+		stack []pqFrame
+		defs  []*ssa.Defer // deferred helper calls registered so far in the current function, in order
 		trail []*ssa.BasicBlock
 	}
-	visited := map[*ssa.BasicBlock]bool{}
-	work := []item{{start, []*ssa.BasicBlock{start.B}}}
-	first := true
+	type vkey struct {
+		b     *ssa.BasicBlock
+		i, r  int
+		stack string
+	}
+	defsKey := func(ds []*ssa.Defer) string {
+		if len(ds) == 0 {
+			return ""
+		}
+		var sb strings.Builder
+		for _, d := range ds {
+			sb.WriteString(strconv.Itoa(int(d.Pos())))
+			sb.WriteByte(',')
+		}
+		return sb.String()
+	}
+	stackKey := func(st []pqFrame) string {
+		if len(st) == 0 {
+			return ""
+		}
+		var sb strings.Builder
+		for _, f := range st {
+			sb.WriteString(strconv.Itoa(f.B.Index))
+			sb.WriteByte('.')
+			sb.WriteString(strconv.Itoa(f.I))
+			sb.WriteByte('.')
+			sb.WriteString(strconv.Itoa(f.R))
+			sb.WriteByte('@')
+			sb.WriteString(f.B.Parent().Name())
+			sb.WriteByte('[')
+			sb.WriteString(defsKey(f.Defs))
+			sb.WriteByte(']')
+			sb.WriteByte(';')
+		}
+		return sb.String()
+	}
+	onStack := func(st []pqFrame, f *ssa.Function) bool {
+		for _, fr := range st {
+			if fr.B.Parent() == f {
+				return true
+			}
+		}
+		return false
+	}
+	visited := map[vkey]bool{}
+	// a start in the middle of a function: the deferred helper calls that may be pending are those registered before
+	var startDefs []*ssa.Defer
+	if q.Into != nil && !(start.B.Index == 0 && start.I == 0) {
+		eachInstr(start.B.Parent(), func(x ssa.Instruction) {
+			if d, ok := x.(*ssa.Defer); ok {
+				if g := d.Common().StaticCallee(); g != nil && q.Into[g] {
+					dp := pointOf(d)
+					if (dp.B == start.B && dp.I < start.I) || (dp.B != start.B && dp.B.Dominates(start.B)) {
+						startDefs = append(startDefs, d)
+					}
+				}
+			}
+		})
+	}
+	work := []item{{start, -1, nil, startDefs, []*ssa.BasicBlock{start.B}}}
+	push := func(it item) { work = append(work, it) }
+	enter := func(it item, callee *ssa.Function, ret pqFrame) {
+		ret.Defs = it.defs
+		st := append(append([]pqFrame{}, it.stack...), ret)
+		tr := append(append([]*ssa.BasicBlock{}, it.trail...), callee.Blocks[0])
+		push(item{Point{callee.Blocks[0], 0}, -1, st, nil, tr})
+	}
 	for len(work) > 0 {
 		it := work[len(work)-1]
 		work = work[:len(work)-1]
-		if it.p.I == 0 {
-			if visited[it.p.B] {
-				continue
-			}
-			visited[it.p.B] = true
-		} else if !first {
-			broken("internal: mid-block restart")
+		k := vkey{it.p.B, it.p.I, it.r, stackKey(it.stack) + "|" + defsKey(it.defs)}
+		if visited[k] {
+			continue
 		}
-		first = false
+		visited[k] = true
 		b := it.p.B
 		stopped := false
-		for i := it.p.I; i < len(b.Instrs); i++ {
+		for i := it.p.I; i < len(b.Instrs) && !stopped; i++ {
 			in := b.Instrs[i]
-			if target(in) {
-				return in, it.trail
+			resume := -1
+			if i == it.p.I && it.r >= 0 {
+				resume = it.r // back from a deferred helper: go on with the next deferred call
 			}
-			if q.Barrier != nil && q.Barrier(in) {
-				stopped = true
-				break
+			if resume < 0 {
+				if _, isRet := in.(*ssa.Return); isRet && q.Into != nil && b.Parent() != q.Root && q.Root != nil {
+					// a helper's return is not an event of the region: go back to the caller
+					if n := len(it.stack); n > 0 {
+						fr := it.stack[n-1]
+						tr := append(append([]*ssa.BasicBlock{}, it.trail...), fr.B)
+						push(item{Point{fr.B, fr.I}, fr.R, it.stack[:n-1], fr.Defs, tr})
+					} else {
+						// started inside the helper: continue after every call of it in the region
+						for _, site := range q.regionSitesOf(b.Parent()) {
+							sp := pointOf(site)
+							if _, isDefer := site.(*ssa.Defer); isDefer {
+								eachInstr(site.Parent(), func(x ssa.Instruction) {
+									if rd, ok := x.(*ssa.RunDefers); ok {
+										rp := pointOf(rd)
+										push(item{Point{rp.B, rp.I + 1}, -1, nil, nil, append(append([]*ssa.BasicBlock{}, it.trail...), rp.B)})
+									}
+								})
+								continue
+							}
+							push(item{Point{sp.B, sp.I + 1}, -1, nil, nil, append(append([]*ssa.BasicBlock{}, it.trail...), sp.B)})
+						}
+					}
+					stopped = true
+					break
+				}
+				if target(in) {
+					return in, it.trail
+				}
+				if q.Barrier != nil && q.Barrier(in) {
+					stopped = true
+					break
+				}
+				if !q.PassNoRet && q.P.isNoReturnCall(in) {
+					stopped = true
+					break
+				}
 			}
-			if !q.PassNoRet && q.P.isNoReturnCall(in) {
-				stopped = true
-				break
+			if q.Into == nil {
+				continue
+			}
+			switch x := in.(type) {
+			case *ssa.Call:
+				if g := x.Common().StaticCallee(); g != nil && q.Into[g] && len(it.stack) < 5 && !onStack(it.stack, g) && g != b.Parent() {
+					enter(it, g, pqFrame{B: b, I: i + 1, R: -1})
+					stopped = true
+				}
+			case *ssa.Defer:
+				if g := x.Common().StaticCallee(); g != nil && q.Into[g] {
+					it.defs = append(append([]*ssa.Defer{}, it.defs...), x)
+				}
+			case *ssa.RunDefers:
+				// the deferred helper calls registered on this path, last first
+				from := 0
+				if resume >= 0 {
+					from = resume
+				}
+				for j := from; j < len(it.defs); j++ {
+					d := it.defs[len(it.defs)-1-j]
+					if g := d.Common().StaticCallee(); g != nil && len(it.stack) < 5 && !onStack(it.stack, g) && g != b.Parent() {
+						enter(it, g, pqFrame{B: b, I: i, R: j + 1})
+						stopped = true
+						break
+					}
+				}
 			}
 		}
 		if stopped {
@@ -130,14 +264,30 @@ func (q *PathQ) Reach(start Point, target func(ssa.Instruction) bool) (ssa.Instr
 			if q.EdgeBlocked != nil && q.EdgeBlocked(b, si) {
 				continue
 			}
-			if visited[s] {
-				continue
-			}
 			tr := append(append([]*ssa.BasicBlock{}, it.trail...), s)
-			work = append(work, item{Point{s, 0}, tr})
+			push(item{Point{s, 0}, -1, it.stack, it.defs, tr})
 		}
 	}
 	return nil, nil
+}
+
+// regionSitesOf: the call sites of helper g inside the region (root and helpers)
+func (q *PathQ) regionSitesOf(g *ssa.Function) []ssa.CallInstruction {
+	var out []ssa.CallInstruction
+	fns := []*ssa.Function{q.Root}
+	for h := range q.Into {
+		fns = append(fns, h)
+	}
+	for _, f := range fns {
+		for _, a := range withAnons(f) {
+			for _, s := range callsIn(a) {
+				if s.Common().StaticCallee() == g {
+					out = append(out, s)
+				}
+			}
+		}
+	}
+	return out
 }
 
 func isReturn(in ssa.Instruction) bool {
@@ -601,7 +751,23 @@ func constBoolD(v ssa.Value, env map[ssa.Value]bool, seen map[ssa.Value]bool) (b
 	case *ssa.Phi:
 		// short-circuit && / ||: all edges known and equal
 		var val, have = false, false
-		for _, e := range x.Edges {
+		for i, e := range x.Edges {
+			// an operand that arrives from a block which the constants make unreachable does not count: in
+			// `!flag && cond` with flag = true the block computing cond is entered only on the not-taken edge
+			if pb := x.Block().Preds[i]; len(pb.Preds) == 1 {
+				q := pb.Preds[0]
+				if iff, isIf := q.Instrs[len(q.Instrs)-1].(*ssa.If); isIf && !seen[iff.Cond] {
+					if cv, known := constBoolD(iff.Cond, env, seen); known {
+						taken := 1
+						if cv {
+							taken = 0
+						}
+						if q.Succs[taken] != pb && q.Succs[1-taken] == pb {
+							continue
+						}
+					}
+				}
+			}
 			b, ok := constBoolD(e, env, seen)
 			if !ok {
 				return false, false
